@@ -79,7 +79,16 @@ StateAtoms(p, o) ==
   \cup R(BatchAtom(p, o, "received"), "b.received") \cup R(BatchAtom(p, o, "total"), "b.total")
   \cup R(BatchAtom(p, o, "cnt"), "b.cnt")
   \cup R(p.c.reqs # o.c.reqs, "c.reqs") \cup R(p.c.pk # o.c.pk, "c.pk")
-  \cup R(p.c.waiting # o.c.waiting, "c.waiting") \cup R(p.c.cfg # o.c.cfg, "c.cfg")
+  \cup R(p.c.waiting # o.c.waiting, "c.waiting")
+  \* the configuration by concern, so that a wrong update is reported under the property that depends on it
+  \cup R(p.c.cfg.fee # o.c.cfg.fee \/ p.c.cfg.treasury # o.c.cfg.treasury, "c.cfg.fee")
+  \cup R(p.c.cfg.oracle # o.c.cfg.oracle, "c.cfg.oracle")
+  \cup R(p.c.cfg.channel # o.c.cfg.channel \/ p.c.cfg.staker # o.c.cfg.staker \/ p.c.cfg.collector # o.c.cfg.collector
+          \/ p.c.cfg.protoPrefix # o.c.cfg.protoPrefix, "c.cfg.hooks")
+  \cup R(p.c.cfg.monitors # o.c.cfg.monitors, "c.cfg.monitors")
+  \cup R(p.c.cfg.batchPeriod # o.c.cfg.batchPeriod \/ p.c.cfg.unbonding # o.c.cfg.unbonding, "c.cfg.periods")
+  \cup R(p.c.cfg.minStake # o.c.cfg.minStake, "c.cfg.minStake")
+  \cup R(p.c.cfg # o.c.cfg, "c.cfg")
   \cup R(BankAtom(p, o, TRUE, FALSE), "bank.contract.nat") \cup R(BankAtom(p, o, TRUE, TRUE), "bank.contract.lst")
   \cup R(BankAtom(p, o, FALSE, FALSE), "bank.other.nat") \cup R(BankAtom(p, o, FALSE, TRUE), "bank.other.lst")
   \cup R(p.sup # o.sup, "sup") \cup R(p.ibc.next # o.ibc.next, "ibc.next") \cup R(p.ibc.fly # o.ibc.fly, "ibc.fly")
@@ -136,9 +145,17 @@ AtomProps(atom, m) ==
      [] atom \in {"c.pend", "b.len", "b.id", "b.status", "b.due"} -> {"C06"}
      [] atom = "b.expected" -> {"C01", "C04", "C06"}
      [] atom = "b.received" -> {"C02", "C06"}
-     [] atom \in {"b.total", "b.cnt", "c.reqs", "led.wdl"} -> {"C05"}
+     [] atom \in {"b.total", "b.cnt", "led.wdl"} -> {"C05"}
+     \* (the per-user view of the open requests is what the UnstakeRequests query reports: C17)
+     [] atom = "c.reqs" -> {"C05", "C17"}
      [] atom \in {"c.pk", "c.waiting", "ibc.next", "ibc.fly"} -> {"C07"}
      [] atom = "c.cfg" -> {"C14"}
+     [] atom = "c.cfg.fee" -> {"C14", "C11"}
+     [] atom = "c.cfg.oracle" -> {"C14", "C15"}
+     [] atom = "c.cfg.hooks" -> {"C14", "C09"}
+     [] atom = "c.cfg.monitors" -> {"C14", "C10", "C08"}
+     [] atom = "c.cfg.periods" -> {"C14", "C06"}
+     [] atom = "c.cfg.minStake" -> {"C14", "C04"}
      [] atom = "bank.contract.nat" -> {"C02"}
      [] atom \in {"bank.contract.lst", "bank.other.lst", "sup", "nat.lst"} -> {"C03"}
      [] atom = "bank.other.nat" -> {"C02"} \cup R(m = "withdraw", "C05") \cup R(m \in {"receive_rewards", "fee_withdraw"}, "C11")
@@ -243,7 +260,11 @@ Findings(l) ==
       panic == {[l |-> l, kind |-> "panic", m |-> m, atom |-> "panic", props |-> {"C16"}] : x \in R(e.res.panic, 1)}
       cmp ==
         IF r.ok /\ e.res.ok
-        THEN {[l |-> l, kind |-> "diff", m |-> m, atom |-> a, props |-> AtomProps(a, m)] :
+        THEN {[l |-> l, kind |-> "diff", m |-> m, atom |-> a,
+               \* C15: without an oracle the rate-changing operations have the same effects as with one - every
+               \* difference from the model's prediction on such a call is also a C15 finding
+               props |-> AtomProps(a, m) \cup R(pre.c.cfg.oracle = None /\ a # "now" /\
+                                                 m \in {"liquid_stake", "submit_batch", "receive_rewards", "resume_contract"}, "C15")] :
                 a \in StateAtoms(r.w, o) \cup MsgAtoms(r.msgs, e.res.msgs, m, LstDen(o)) \cup WireAtoms(e.res.msgs, fam)}
         ELSE IF ~r.ok /\ e.res.ok
         THEN {[l |-> l, kind |-> "forbidden_success", m |-> m, atom |-> y, props |-> ReasonProps(y, m)] : y \in r.why}
